@@ -286,7 +286,10 @@ func areUnknownAttributesAdded(content []byte) []string {
 	// Ignoring error because we already successfully unmarshalled before this
 	// point
 	_ = json.Unmarshal(content, &targetArtifactMap)
-	descriptor := targetArtifactMap["targetArtifact"].(map[string]interface{})
+	// the key may be absent here: the struct decoding above matches keys
+	// case-insensitively, e.g. "TargetArtifact", which is then reported as an
+	// unknown attribute
+	descriptor, _ := targetArtifactMap["targetArtifact"].(map[string]interface{})
 
 	// Explicitly remove expected keys to check if any are left over
 	delete(descriptor, "mediaType")
